@@ -13,15 +13,15 @@ def hook_commits():
 # id -> (technique, level text, level note, design ref)
 CHECKS = {
  "C08": ("exhaustive boundary grids + proptest-driven random operands against an i128/IEEE oracle, four evaluation routes (differential)",
-         "Every pair of a 45-value i64 boundary grid and a 30-value f64 grid for every scalar operator, plus seeded random operands, evaluated folded, through the host API, through an in-language call, with one operand constant, under a prefix operator (`!(a < b)`, `-(a - b)`) and as compound assignment, each compared with an independent i128 / IEEE oracle. Exploration: complete on the grids, sampled elsewhere.",
+         "Every pair of a 45-value i64 boundary grid and a 30-value f64 grid for every scalar operator, plus seeded random operands, evaluated folded, through the host API, through an in-language call, with one operand constant, under a prefix operator (`!(a < b)`, `-(a - b)`), with both operands one and the same variable (`x == x`, `x - x`, `x / x`), with an operand that fails (the failing operand's error is the outcome; only && and || may skip their right operand) and as compound assignment, each compared with an independent i128 / IEEE oracle. Exploration: complete on the grids, sampled elsewhere.",
          "Trusts the harness oracle (i128 arithmetic, Rust f64 = IEEE-754, platform pow for float **) and that the grid covers the boundary classes listed in the evidence labels.",
          "DESIGN.md section 3, C08"),
  "C09": ("exhaustive small-scope enumeration + proptest random sequences/bounds against a re-implementation of Python's slice.indices (reference model), folded and run-time routes",
-         "All arrays and strings (ASCII and 2/3/4-byte scalars, plus 14 scalars with boundary UTF-8 lead/continuation bytes) up to length 4 (quick) / 6 (thorough) x all indices and all (start, stop, step) triples in a range exceeding the length on both sides plus MIN/MAX, compared with Python slice semantics on i128; both the constant-folded and the run-time (host API call) routes; static type of the slice must admit the value.",
+         "All arrays and strings (ASCII and 2/3/4-byte scalars, plus 14 scalars with boundary UTF-8 lead/continuation bytes) up to length 4 (quick) / 6 (thorough) x all indices and all (start, stop, step) triples in a range exceeding the length on both sides plus MIN/MAX, compared with Python slice semantics on i128; the constant-folded route, the run-time (host API call) route, partially constant routes and routes inside closures where the sequence, the index and the bounds are names captured from the enclosing scope; static type of the slice must admit the value.",
          "Trusts the harness's re-implementation of slice.indices and that literal sequences evaluate to themselves.",
          "DESIGN.md section 3, C09"),
  "C10": ("proptest-generated type triples (derived by widening / near-miss perturbation) + exhaustive triples over a 34-type basis, algebraic laws and semantic-witness value soundness as oracles",
-         "Reflexivity, bounds, transitivity, variance congruences as equivalences, struct width, mut invariance, union upper/least bound (unions built with the implementation's `|` in several insertion orders), meet lower bound and value soundness (a concrete witness value of A outside B whenever A matches B) on ~60k generated triples per quick run plus ~14k basis triples.",
+         "Reflexivity, bounds, transitivity, variance congruences as equivalences, struct width, mut invariance, union upper/least bound (unions built with the implementation's `|` in several insertion orders), meet lower bound and value soundness (a concrete witness value of A outside B whenever A matches B) on ~60k generated triples per quick run plus ~14k basis triples; ~12k in-language membership programs: if-set, type arms of match and while-set of catalogue values (plus look-alike values differing in one component) against every catalogue type under every declared parameter type, the same test called repeatedly on members and non-members, must answer what the harness's membership test answers.",
          "Trusts the harness's membership semantics for witnesses (sem.rs); witness search is incomplete, so value soundness is only refuted, never proven.",
          "DESIGN.md section 3, C10"),
  "C15": ("proptest-generated types, several instances per type (different source orders, rebuilt with |), print/re-parse round trip + full-consumption parse of the printed text + run-time type-filter route",
@@ -29,39 +29,39 @@ CHECKS = {
          "Print orders of unions/structs come from std's per-instance hash keys; several instances per type sample them, the orders are not enumerated.",
          "DESIGN.md section 3, C15"),
  "C20": ("proptest-generated nested values + exhaustive boundary scalars / 1-2 character strings, print -> Variable::from_str / Code::parse round trip; integer literal texts against their mathematical value (reference model)",
-         "Values up to depth 4 over boundary ints, finite floats, adversarial strings, (), arrays and tuples are built through public constructors, rendered and parsed back both as value literal and as program; content, ==, and type must be preserved. Integer literals in four radixes with underscores up to 2^65 must denote their value or be rejected as too big.",
+         "Values up to depth 4 over boundary ints, finite floats, adversarial strings, (), arrays and tuples are built through public constructors, rendered and parsed back both as value literal and as program; content, ==, and type must be preserved. Integer literals in four radixes with underscores up to 2^65 must denote their value or be rejected as too big. Arrays and tuples over look-alike families (signed zeros, 1 vs 1.0, `[]` vs `[[]]`, "" vs " ") are enumerated.",
          "Trusts the harness's JSON model of values and Rust's float formatting being shortest-round-trip.",
          "DESIGN.md section 3, C20"),
  "C14": ("exhaustive enumeration of operator pairs/triples and hand-written templates; metamorphic oracle: unparenthesised text == table-prescribed fully parenthesised text, with operand search for distinguishing values",
-         "All 361 ordered pairs and 6859 triples of the 19 infix operators plus ~330 templates (prefix/postfix/iterator-level/assignment/tokenisation); for each, operands are searched so that the table's grouping is distinguished from the other groupings, then the bare text (spaced and unspaced) must agree with the table's grouping.",
+         "All 361 ordered pairs and 6859 triples of the 19 infix operators plus ~330 templates (prefix/postfix/iterator-level/assignment/tokenisation); for each, operands are searched so that the table's grouping is distinguished from the other groupings, then the bare text (spaced and unspaced) must agree with the table's grouping, and with the grouping computed one operator at a time; right-to-left assignment chains of all 12 assignment operators must also have the value the documented meaning gives (an assignment yields what it stored), written as a literal.",
          "Both sides are evaluated by the implementation (parentheses are trusted to group); chains whose groupings cannot be distinguished are counted, not claimed.",
          "DESIGN.md section 3, C14"),
  "C03": ("exhaustive short token sequences + proptest-driven random token sequences, grammar derivations (pest_meta on the project's own grammar), token-level mutation of the documentation corpus, an operator x operand-type matrix, constant-failure and import fault catalogues; oracle: no panic (crash oracle on a total function)",
-         "About 2.4M calls per quick run of Code::parse (two environments), Code::return_type, Error::to_string, Variable::from_str and Type::from_str on generated text; every construct of the grammar is reached through derivations and the operand-type matrix (60 operand types incl. `!`, `any`, unions of every compound kind x ~150 unary and ~70 binary templates), the same matrix over constant operands of union static type, tape-generated typed programs with token edits, and a catalogue of names rebound from their own old value.",
+         "About 2.4M calls per quick run of Code::parse (two environments), Code::return_type, Error::to_string, Variable::from_str and Type::from_str on generated text; every construct of the grammar is reached through derivations and the operand-type matrix (60 operand types incl. `!`, `any`, unions of every compound kind x ~150 unary and ~70 binary templates), the same matrix over constant operands of union static type, tape-generated typed programs with token edits, a catalogue of names rebound from their own old value, and string literals of every spelling (well-formed and malformed escapes) in every position that takes a string, import paths included.",
          "Inputs nested deeper than 40 brackets and imports outside the scratch directory are skipped (stack exhaustion and device reads are outside the claim); a panic hook + catch_unwind is the observation.",
          "DESIGN.md section 3, C03"),
  "C16": ("seeded workload generation + repeated execution on real oversubscribed threads (schedule sampling); oracles: orbit multiset of returned values, per-update bit ownership, brute-force linearizability against the i128 model, sequential-result differential",
-         "Lost, duplicated or torn updates of every assignment operator are made visible by construction (injective orbits, one bit per update, identity updates racing with increments, linearizability of small histories, appends of distinct tokens to shared array / string / float cells); unshared executions of shared Code/Function values (incl. the lazy iterator helpers) must equal the sequential result. Hundreds of workloads x repetitions per quick run, ~4M shared operations.",
+         "Lost, duplicated or torn updates of every assignment operator are made visible by construction (injective orbits, one bit per update, identity updates racing with increments, linearizability of small histories, appends of distinct tokens to shared array / string / float cells); unshared executions of shared Code/Function values (incl. the lazy iterator helpers, and a cell made from a constant in each of 26 syntactic positions) must equal what a fresh parse and a single run give. Hundreds of workloads x repetitions per quick run, ~4M shared operations.",
          "The harness does not own the scheduler: interleavings are sampled by repetition on 16 cores; a race needing one rare interleaving, or a deadlock (reported as inconclusive by the watchdog), can be missed.",
          "DESIGN.md section 3 C16 and section 7"),
  "C19": ("proptest-generated value pairs x provenance paths + exhaustive basis x path pairs; oracle: structural equality of the harness's value model (reference model), symmetry/negation/reflexivity laws",
-         "Equal and nearly-equal first-order values are built along 24 provenance paths (every array-producing operator, any/union-typed positions, cells, closures, loops) and compared with ==, !=, match value arms, bound/unbound, folded/run-time and nested inside arrays, tuples and structs; ~880k comparisons per quick run, 24 basis values x 26 x 26 path pairs swept completely (two paths label the array with a wider declared element type than a literal gets); a value compared with itself through one name at top level and inside function bodies is equal exactly when it holds no NaN; function values, cells and iterators (8 constructors x 10 alias paths x 6 comparison forms, 38 hand-written programs) are equal exactly when they stem from one creation.",
+         "Equal and nearly-equal first-order values are built along 24 provenance paths (every array-producing operator, any/union-typed positions, cells, closures, loops) and compared with ==, !=, match value arms, bound/unbound, folded/run-time and nested inside arrays, tuples and structs; ~880k comparisons per quick run, 24 basis values x 26 x 26 path pairs swept completely (two paths label the array with a wider declared element type than a literal gets); a value compared with itself through one name at top level and inside function bodies is equal exactly when it holds no NaN; function values, cells and iterators (8 constructors x 10 alias paths x 6 comparison forms, 38 hand-written programs) are equal exactly when they stem from one creation, also across the inputs of an embedding session (the value a declaration statement yields vs the declared name); the negation law is also checked written as unparenthesised chains (`l == r != false`).",
          "Trusts the JSON value model's equality (IEEE for floats) and that each provenance expression evaluates to the intended value (checked first).",
          "DESIGN.md section 3, C19"),
  "C18": ("export discovery + exhaustive products of boundary argument pools + proptest random arguments; oracles: declared result type (harness membership), documented results by naive independent implementations (reference model), differential std::fs on a twin directory for fault states",
-         "Every function reachable from `std` (90 exports discovered at run time) is called through the host API and in-language on boundary/random arguments (incl. strings and byte arrays around the UTF-8 encoding boundaries, overlong forms, the replacement character as content); results must inhabit the declared type, never raise, and match naive re-implementations of the documented behaviour; file-system functions are compared with std::fs on twin trees across 14 path states (all pairs for copy/rename); cgetline is fed generated stdin.",
+         "Every function reachable from `std` (90 exports discovered at run time) is called through the host API and in-language on boundary/random arguments (incl. strings and byte arrays around the UTF-8 encoding boundaries, overlong forms, the replacement character as content); results must inhabit the declared type, never raise, and match naive re-implementations of the documented behaviour; file-system functions are compared with std::fs on twin trees across 14 path states (all pairs for copy/rename); cgetline is fed generated stdin; the text print and print_array write is captured (stdout redirected to a file) and compared with the documented rendering.",
          "Transcendental float functions are only compared with the platform libm; fs differential assumes the twin tree is in the same state (rebuilt before every case).",
          "DESIGN.md section 3, C18"),
  "C01": ("exhaustive operator x operand-type matrix with subsumption calls, executed under the verif monitor; oracle: harness-side membership of every observed value in the static type the checker computed (tag and contents)",
-         "Every unary/postfix/statement template on 60 operand types and every infix/assignment operator and two-operand template on all pairs; each accepted function is called through the host API and in-language with every catalogue value of its parameter types and, for one-parameter functions, with every catalogue value the host API admits (subsumption); the monitor reports each instruction result, argument, return, final result and reachable cell with its static type, and every array's element-type label must admit its elements (~600k executions per quick run).",
+         "Every unary/postfix/statement template on 60 operand types and every infix/assignment operator and two-operand template on all pairs; each accepted function is called through the host API and in-language with every catalogue value of its parameter types and, for one-parameter functions, with every catalogue value the host API admits (subsumption); the monitor reports each instruction result, argument, return, final result and reachable cell with its static type, and every array's element-type label must admit its elements (~700k executions per quick run); std.fs calls on a scratch tree (14 path states incl. a NUL byte in the path and non-UTF-8 content) are followed by a match with one arm per member of the declared result type.",
          "Instructions inside the placeholder-typed helper closures of @ ? ~ are not judged (hook H4); the known finding C01:void-for-never (filler of an exhausted empty-typed iterator) is listed in KNOWN_FINDINGS.txt and excluded from the catalogue.",
          "DESIGN.md section 3, C01"),
  "C02": ("exhaustive operator x operand-type matrix and documentation corpus executed under a panic-capturing guard; crash oracle restricted to the six documented run-time errors",
          "The same population as C01 (all accepted matrix functions x all catalogue values, host API and in-language); the run must end in a value or one of the six documented errors; budgets (fuel, depth, length) make runaway programs inconclusive, not violations.",
-         "Programs run against std without fs/io; a panic hook + catch_unwind is the observation.",
+         "Generated programs run against std without fs/io (hand-written std.fs programs use a scratch directory only); a panic hook + catch_unwind is the observation.",
          "DESIGN.md section 3, C02"),
  "C04": ("proptest-generated typed programs printed as literal / fully hidden / partly hidden twins; differential oracle between the twins with the reference interpreter as referee and a constness analysis for the one permitted difference",
-         "40k generated programs per quick run (constants profile) x 3 printings; values incl. the effect log and all top-level names, and run-time error kinds must agree; a parse-time error of the literal version must be justified by a constant (or unclassifiable) failing operand.",
+         "40k generated programs per quick run (constants profile) x 3 printings; values incl. the effect log and all top-level names, and run-time error kinds must agree; a parse-time error of the literal version must be justified by a constant (or unclassifiable) failing operand. A partial-constant catalogue (~56k twins: every infix operator with one operand, or two of three in a chain of one level, constant - literal / in a cell / bound to a name - over boundary ints, floats, bools, strings and arrays) is enumerated completely.",
          "The hiding wrapper `*(mut T c)` is assumed opaque to the folding pass (Mut::recreate and indirection never fold); twins differing in type-check acceptance are discarded.",
          "DESIGN.md section 3, C04"),
  "C06": ("proptest-generated typed programs (scoping profile) against the reference interpreter (model-based oracle) on all top-level names, the effect log and errors",
@@ -84,12 +84,12 @@ CHECKS = {
          "40k programs per quick run (cells profile): cells in bindings, aliases, closures, arrays; all 12 assignment operators incl. failing ones; every read, every yielded value, the aliasing structure of results and the cells still reachable after an error are compared; ~9k matrix and near-miss cases (cell widening, compound assignments with wider operands) check that every reachable cell - incl. the cells handed to a host call - holds a value of its declared type.",
          "Trusts the reference heap model; matrix part trusts hook H1/H2 observations.",
          "DESIGN.md section 3, C13"),
- "C05": ("repeated parse/run of generated and enumerated programs on fresh threads (fresh hash keys) with an all-repetitions-agree oracle (metamorphic: same input, different hash seeds), plus type-level determinism laws across instances",
-         "All unary matrix cells, order-sensitive hand-written programs, the documentation corpus, generated typed programs and random matrix cells are parsed and run 6 (quick) / 24 (thorough) times on fresh threads; acceptance, static type, value and error must coincide; generated type pairs must be ==, hash-equal and answer matches/|/conjoin identically across instances, and whatever the checker derives from a union of partially subsuming members (field, element, result, parameter types ...) must be the same structure on every parse.",
+ "C05": ("repeated parse/run of generated and enumerated programs on fresh threads (fresh hash keys) with an all-repetitions-agree oracle (metamorphic: same input, different hash seeds), the same programs in fresh child processes and after unrelated work on one thread, plus type-level determinism laws across instances",
+         "All unary matrix cells, order-sensitive hand-written programs, the documentation corpus, generated typed programs and random matrix cells are parsed and run 6 (quick) / 24 (thorough) times on fresh threads; acceptance, static type, value and error must coincide; generated type pairs must be ==, hash-equal and answer matches/|/conjoin identically across instances, and whatever the checker derives from a union of partially subsuming members (field, element, result, parameter types ...) must be the same structure on every parse. About 11k programs are also run in 6 (quick) / 16 (thorough) child processes of the harness and compared with the parent's outcomes, and sequences of programs are run several times round on one thread and compared with their outcomes on fresh threads.",
          "Hash keys come from the OS, not from VERIF_SEED: detection of an order-dependent defect is probabilistic per repetition; the check itself is deterministic on a correct tree.",
          "DESIGN.md section 3 C05 and section 7"),
  "C17": ("proptest-generated statement sequences split into REPL inputs (differential batch vs incremental route), double execution of one Code, and exhaustive create_call vs in-language call acceptance/result differential over the operand-type matrix",
-         "12k generated programs per quick run split into inputs of 1-3 statements and compared after every input on last result and all top-level variables; each program executed twice (equal results, disjoint cells, untouched interpreter); ~390k host-vs-language call comparisons incl. ill-typed and wrong-arity argument lists (19 functions of arity 0-3: native iterators, std functions, parameters spelled like the function, recursion, captured cells).",
+         "12k generated programs per quick run split into inputs of 1-3 statements and compared after every input on last result and all top-level variables; each program executed twice (equal results, disjoint cells, untouched interpreter); 72 fresh-state programs (fillers that are cells, cells made from constants in 26 positions, iterators over literals) executed four times from one Code against a fresh parse; ~390k host-vs-language call comparisons incl. ill-typed and wrong-arity argument lists (19 functions of arity 0-3: native iterators, std functions, parameters spelled like the function, recursion, captured cells).",
          "Acceptance differences between batch and incremental routes are allowed by the property and end the comparison of a case.",
          "DESIGN.md section 3, C17"),
 }
